@@ -25,6 +25,18 @@ For every step of every history
     schema governs (the container, its typed children, a returned copy): the
     schema must still be in force.
 
+Besides the write-path x spec-vocabulary drivers and the history drivers:
+  * drv_spec_modifiers_*: every base spec under every chain of the modifiers
+    noneable / set_default / freeze (frozen at a value, at None, at the current
+    default) as a field of a typed Dict and of an Object, every write path of
+    that field, one case id per input class of the written value (None, other
+    value the base accepts, value it rejects), and writes into the content of a
+    frozen container field;
+  * drv_*_resets: clear / popitem / empty construction / removal of a field /
+    replacement by an empty value when the value that cannot be defaulted sits
+    1..3 levels below the container the call is made on (nested Dict fields,
+    noneable Dict fields, List-of-Dict fields), at every level of the tree.
+
 Class definitions / spec objects of a subject are shared between the runs of
 that subject for speed; every failure is re-confirmed on a completely fresh
 build (new classes, new spec objects) before it is recorded, so state leaked
@@ -1337,7 +1349,8 @@ def dict_ops(sub, fd, present, focus=False, fine=False):
       add('setitem-MISSING', 'x["x1"]=M', 'dynamic-key-removal')
     add('popitem', 'x.popitem()', 'typed')
     all_default = all(d.has_default or d.frozen for k, d in sub.x_desc.fields if not isinstance(k, tuple))
-    add('clear', 'x.clear()', 'valid' if (all_default or partial) else 'required-field',
+    add('clear', 'x.clear()', ('valid:container-default-of-noneable-or-union-spec' if getattr(fd, 'fragile_default', False)
+                               else 'valid') if (all_default or partial) else 'required-field',
         None if (all_default or partial) else 'required fields have no default')
     add('copy', 'y=x.copy()', 'valid', result=sub.x_desc)
   elif others:
@@ -1553,16 +1566,19 @@ def modifier_vocabulary(tier):
         continue      # the same spec as 'frozen', built another way
       if label == 'noneable+frozen-at-own-default' and base.has_default and not hasattr(base, 'fields'):
         continue      # same spec as noneable+frozen at that default
-      if none and (dflt or frz == 'v') and (hasattr(base, 'elem') or (hasattr(base, 'fields') and not hasattr(base, 'cls_name'))):
-        # pyglove cannot materialize a non-None list/dict default of a noneable
-        # List/Dict spec (TypeError 'Source spec ... is not compatible' when the
-        # default is used, for an Object already at class definition): nothing
-        # can be built to check.  Not a schema violation; reported separately.
+      # pyglove cannot turn a list/dict default into a symbolic value when the
+      # spec is noneable or a Union ('Source spec ... is not compatible' when
+      # the default is used; for an Object already at class definition).  Such
+      # a spec is kept only where a valid value can be built at all: not frozen,
+      # field of a typed Dict that is given explicitly, never explicitly partial.
+      fragile = (none or base.name.startswith('Union')) and (dflt or frz == 'v') and v[0] in '[{'
+      if fragile and frz is not None:
         continue
       try:
         d = modified(base, none=none, default=v if dflt else None, freeze=v if frz == 'v' else frz)
       except ValueError:
         continue
+      d.fragile_default = bool(fragile)
       out.append((label, d))
   return out
 
@@ -1570,7 +1586,7 @@ def modifier_vocabulary(tier):
 def _one_per_class(d):
   """Copy of d keeping one sample per label (input class); first/last valid."""
   n = Desc(d.name, d.src, d._ok, d.valid, d.invalid, pre=d.pre)  # pylint: disable=protected-access
-  n.__dict__.update(d.__dict__)
+  n.__dict__.update(d.__dict__)      # (keeps fragile_default etc.)
   seen = set()
   n.invalid = [t for t in d.invalid if not (t[0] in seen or seen.add(t[0]))]
   keep = [d.valid[0]] + [t for t in d.valid[1:] if t[1] == 'None'] + d.valid[-1:]
@@ -1586,20 +1602,24 @@ def _spec_modifiers(tier, mk, title):
   rec = Recorder(
       'C03', title + ': value-spec modifier combinations on a field',
       scope=f'{len(voc)} field specs = base specs (Int, Str regex, Bool, Float, Enum, List, Tuple, Dict, Object, Union, Any) x '
-            f'modifier chains {[c[0] for c in _MODIFIER_COMBOS]} (noneable List/Dict with a non-None default excluded: pyglove '
-            'cannot build such a default); field f of the schema {f, g: Int default, h: frozen Int, r: required, StrKey(x.*)}; '
+            f'modifier chains {[c[0] for c in _MODIFIER_COMBOS]} (a noneable/Union spec with a list/dict default only as a given field of a typed '
+            'Dict, not frozen: pyglove cannot build such a default); field f of the schema {f, g: Int default, h: frozen Int, r: required, StrKey(x.*)}; '
             'every write path of f (ctor, partial ctor, from_json, []=, attr, update, |=, setdefault, rebind, clone(override), '
             'MISSING/del/pop, clear, popitem) x one sample per input class of the modified spec in quick, all in thorough '
             '(None, the frozen value, another value the base spec accepts, values it rejects); writes into the content of a '
-            'frozen container field; modes full and, for noneable+frozen chains (all chains in thorough), partial and '
+            'frozen container field; modes full and, for noneable+frozen chains (all chains in thorough), partial and/or '
             'allow_partial scope; single steps from a valid state (in thorough each rejected write repeated / accepted call probed)')
   for label, fd in voc:
-    if mk is object_subject and fd.name.startswith('Object('):
+    if mk is object_subject and (fd.name.startswith('Object(') or fd.fragile_default):
       continue
     modes = ['full']
-    if fd.frozen and 'noneable' in label or tier != 'quick':
+    if tier != 'quick' or label == 'noneable+frozen':
       modes += ['partial', 'scope']
+    elif label == 'noneable+frozen-at-None' or fd.fragile_default:
+      modes += ['scope']
     for mode in modes:
+      if fd.fragile_default and mode == 'partial':
+        continue
       sub = mk(fd, 'top', mode)
       _run_dict_like(rec, sub, fd, (fd.name, sub.kind, mode), repeat=(tier != 'quick'), focus=True, fine=True)
   return rec.result()
@@ -1613,6 +1633,209 @@ def drv_spec_modifiers_dict(tier, seed):
 def drv_spec_modifiers_object(tier, seed):
   del seed
   return _spec_modifiers(tier, object_subject, 'pg.Object')
+
+
+# ---------------------------------------------------------------------------
+# Resets: clear / popitem / removal of fields whose default has to be derived
+# from a nested schema (the value that cannot be defaulted sits below the
+# container the call is made on).
+# ---------------------------------------------------------------------------
+
+def nested_desc(depth, req_depth, via='dict', level=0):
+  """Schema of level `level`: k (Str: required iff level == req_depth, else
+  default 'z'), lr (Float[0,1] default 0.5) and, above the last level, o: the
+  next level, held `via` a Dict field (derived default), a noneable Dict field
+  (default None) or a List-of-Dict field with default []."""
+  k = d_str() if level == req_depth else with_default(d_str(), "'z'")
+  fields = [('k', k), ('lr', with_default(d_float(0.0, 1.0), '0.5'))]
+  if level < depth:
+    inner = nested_desc(depth, req_depth, via, level + 1)
+    if via == 'noneable-dict':
+      inner = noneable(inner)
+    elif via == 'list':
+      inner = with_default(d_list(inner, 0, 2), '[]')
+    fields.append(('o', inner))
+  return d_dict(fields, name=f'Nested(depth={depth},required@{req_depth},via={via},level={level})')
+
+
+def _nested_init(desc, partial):
+  """Source of a complete (or, partial: empty) plain value for desc."""
+  if partial:
+    return '{}'
+  items = []
+  for k, d in desc.fields:
+    if k == 'k':
+      items.append("'k':'a'")
+    elif k == 'o':
+      inner = _nested_init(d.elem if hasattr(d, 'elem') else d, False)
+      items.append("'o':" + (f'[{inner}]' if hasattr(d, 'elem') else inner))
+  return '{' + ','.join(items) + '}'
+
+
+def nested_subject(depth, req_depth, via, x_level, kind, where, mode):
+  """x: the typed Dict (kind 'dict') or the pg.Object whose members are those
+  of level `x_level`; it sits `x_level` levels below the root (Dict root), or
+  is the root itself (object / list / holder roots only with x_level == 0)."""
+  partial = mode == 'partial'
+  top = nested_desc(depth, req_depth, via)
+  levels = [top]
+  while any(k == 'o' for k, _ in levels[-1].fields):
+    d = dict(levels[-1].fields)['o']
+    levels.append(d.elem if hasattr(d, 'elem') else d)
+  acc = ''.join('.o[0]' if via == 'list' else '.o' for _ in range(x_level))
+  scope = mode == 'scope'
+  if kind == 'object':
+    fields = nested_desc(depth, req_depth, via).fields
+    od = d_object('Obj', fields)
+    init = _nested_init(top, partial)
+    setup = f'{od.pre}root=x=Obj' + ('.partial' if partial else '') + f'(**{init})'
+    return Subject('object', setup, od, od, partial=partial, scope_partial=scope), od
+  xd = levels[x_level]
+  init = _nested_init(top, partial and x_level == 0)
+  if where == 'top':
+    setup = f'{top.pre}S={top.src}\nroot=pg.Dict({init},value_spec=S' + (',allow_partial=True)' if partial else ')') + f'\nx=root{acc}'
+    if not acc:
+      setup = setup.replace('\nroot=', '\nroot=x=').rsplit('\nx=root', 1)[0]
+    return Subject('dict', setup, top, xd, partial=partial, scope_partial=scope), xd
+  if where == 'list':
+    rd = d_list(top, 0, None)
+    setup = f'{rd.pre}S={rd.src}\nroot=pg.List([{init}],value_spec=S' + (',allow_partial=True)' if partial else ')') + f'\nx=root[0]{acc}'
+    return Subject('dict', setup, rd, xd, partial=partial, scope_partial=scope), xd
+  if where == 'object':
+    rd = d_object('Holder', [('d', top)])
+    setup = f'{rd.pre}root=Holder' + ('.partial' if partial else '') + f'(d={init})\nx=root.d{acc}'
+    return Subject('dict', setup, rd, xd, partial=partial, scope_partial=scope), xd
+  raise ValueError(where)
+
+
+def _needs(d):
+  """'' if the spec can produce a complete default; else where the value that
+  cannot be defaulted sits: 'required' (the field itself is a value without
+  default) or 'nested-required' (it is somewhere inside this Dict-typed field)."""
+  if d.frozen or d.has_default:
+    return ''
+  return 'nested-required' if hasattr(d, 'fields') and not hasattr(d, 'cls_name') else 'required'
+
+
+def reset_ops(sub, xd, present, light=False):
+  """Whole-container resets and per-field removals of x (schema xd).
+
+  light: a leaf field that has a default is removed through four representative
+  paths only (every path of such a field is covered by drv_dict_writes)."""
+  partial = sub.partial or sub.scope_partial
+  img = present[1] if isinstance(present, tuple) else present
+  ops = []
+  b = _OpList(sub, img, ops, partner=('lr', '0.25', 0.25))
+  add, paths, kind = b.add, b.paths, sub.kind
+  consts = [(k, d) for k, d in xd.fields if not isinstance(k, tuple)]
+  blocked = sorted({_needs(d) for _, d in consts} - {''})
+  if partial:
+    whole, why = 'partial', None
+  elif not blocked:
+    whole, why = 'all-defaults', None
+  else:
+    whole = '+'.join(blocked) + '-field'
+    why = 'a value without default ' + ('sits in a nested Dict field' if blocked == ['nested-required'] else 'exists')
+  if kind == 'dict':
+    add('clear', 'x.clear()', whole, why)
+    add('popitem', 'x.popitem()', whole)       # may refuse or reset the field; judged by the invariant
+    add('ctor-empty', 'y=pg.Dict({},value_spec=x.value_spec)', whole, why, result=xd)
+    add('ctor-empty', 'y=pg.Dict(value_spec=x.value_spec)', whole, why, result=xd)
+    add('use_value_spec-empty', 'y=pg.Dict().use_value_spec(x.value_spec' + (',True)' if sub.partial else ')'), whole, why, result=xd)
+    add('ctor-partial-empty', 'y=pg.Dict.partial({},value_spec=x.value_spec)', 'partial', None, result=_PARTIAL)
+    add('copy', 'y=x.copy()', 'valid', result=xd)
+  else:
+    add('ctor-empty', 'y=Obj()', whole, why, result=xd)
+    add('ctor-partial-empty', 'y=Obj.partial()', 'partial', None, result=_PARTIAL)
+    add('sym_init_args-clear', 'x.sym_init_args.clear()', whole, why)
+  add('clone', 'y=x.clone(deep=True)', 'valid', result=xd)
+  for key, d in consts:
+    need = '' if partial else _needs(d)
+    cls = 'valid-removal' if not need else f'{need}-removal'
+    kwhy = None if not need else f'{key} cannot be defaulted ({need}) and the value is not partial'
+    if light and not need and key != 'o':
+      add('rebind-MISSING', f'x.rebind({{{key!r}:M}},**NC)', cls, kwhy)
+      add('setattr-MISSING', f'x.{key}=M', cls, kwhy)
+      if kind == 'dict':
+        add('delitem', f'del x[{key!r}]', cls, kwhy)
+        add('pop', f'x.pop({key!r})', cls, kwhy)
+      continue
+    paths(key, 'M', cls, kwhy, tag='-MISSING')
+    if kind == 'dict':
+      add('delitem', f'del x[{key!r}]', cls, kwhy)
+      add('delattr', f'del x.{key}', cls, kwhy)
+      add('pop', f'x.pop({key!r})', cls, kwhy)
+      add('pop', f'x.pop({key!r},None)', cls, kwhy)
+    m = re.search(r'\nx=root((?:\.\w+|\[\d+\])+)$', sub.setup)
+    if m:
+      add('rebind-path-MISSING', f'root.rebind({{"{m.group(1).lstrip(".")}.{key}":M}},**NC)', cls, kwhy)
+    if key == 'o':
+      # replacing the nested container by an empty one: the same question
+      is_list = hasattr(d, 'elem')
+      inner = d.elem if is_list else d
+      lacks = {_needs(dd) for _, dd in inner.fields} - {''}
+      ineed = '' if partial or not lacks else 'required' if 'required' in lacks else 'nested-required'
+      icls = 'valid-value' if not ineed else f'empty-value-lacks-{ineed}'
+      iwhy = None if not ineed else f'the empty value lacks a {ineed} member'
+      paths('o', '[{}]' if is_list else '{}', icls, iwhy, tag='-empty')
+      e = '[pg.Dict()]' if is_list else 'pg.Dict()'
+      if light:
+        add('rebind-empty', f'x.rebind(o={e},**NC)', icls, iwhy)
+        add('setattr-empty', f'x.o={e}', icls, iwhy)
+      else:
+        paths('o', e, icls, iwhy, tag='-empty')
+  return ops
+
+
+def _reset_driver(tier, kinds, title):
+  rec = Recorder(
+      'C03', title,
+      scope='schemas level_i = {k: Str (required at one level or nowhere), lr: Float default, o: level_i+1} with 1..2 nested '
+            'levels (3 in thorough), nested level held via a Dict field, a noneable Dict field or a List-of-Dict field with '
+            'default []; x = the typed Dict at every level (root stand-alone, element of a typed List, member of an Object) or a '
+            'pg.Object with these members; clear, popitem, empty ctor / use_value_spec, sym_init_args.clear, removal of every '
+            'field through every write path (MISSING via []=/attr/update/|=/rebind/rebinder/clone override, del, pop, path '
+            'rebind from the root, batches with a valid write; in quick a defaulted leaf field through 4 representative paths), '
+            'replacement of the nested value by an empty one; modes full, '
+            'partial, allow_partial scope; single steps from a valid state, rejected call repeated, accepted call probed')
+  max_depth = 2 if tier == 'quick' else 3
+  for depth in range(1, max_depth + 1):
+    for req_depth in [None] + list(range(depth + 1)):
+      for via in ('dict', 'noneable-dict', 'list'):
+        for kind in kinds:
+          for mode in ('full', 'partial', 'scope'):
+            if kind == 'object':
+              places = [(0, 'top')]
+            else:
+              places = [(lv, 'top') for lv in range(depth + 1)]
+              if mode == 'full':
+                places += [(0, 'list'), (0, 'object')] + ([(1, 'object')] if tier != 'quick' or depth == 1 else [])
+            if mode != 'full' and tier == 'quick' and (depth > 1 or via != 'dict'):
+              continue
+            for x_level, where in places:
+              if mode == 'partial' and x_level > 0:
+                continue
+              sub, xd = nested_subject(depth, req_depth, via, x_level, kind, where, mode)
+              probe = Run(rec, sub)
+              if probe.dead:
+                continue
+              key = (depth, req_depth, via, x_level, kind, where, mode)
+              for op in reset_ops(sub, xd, plain(probe.x), light=(tier == 'quick')):
+                if op.get('result') is _PARTIAL:
+                  _step_partial_result(Run(rec, sub), dict(op, result=xd), key + (op['src'],))
+                else:
+                  Run(rec, sub).step(op, key + (op['src'],))
+  return rec.result()
+
+
+def drv_dict_resets(tier, seed):
+  del seed
+  return _reset_driver(tier, ('dict',), 'typed pg.Dict: clear / removal when the default is derived from a nested schema')
+
+
+def drv_object_resets(tier, seed):
+  del seed
+  return _reset_driver(tier, ('object',), 'pg.Object: empty construction / removal when the default is derived from a nested schema')
 
 
 def drv_dict_histories(tier, seed):
@@ -1656,7 +1879,7 @@ def drv_dict_histories(tier, seed):
 
 
 DRIVERS = [drv_list_writes, drv_list_histories, drv_dict_writes, drv_object_writes, drv_dict_histories,
-           drv_spec_modifiers_dict, drv_spec_modifiers_object]
+           drv_spec_modifiers_dict, drv_spec_modifiers_object, drv_dict_resets, drv_object_resets]
 
 
 def replay(rec):
